@@ -94,6 +94,49 @@ def extract(path):
     return sites, fields, arrays
 
 
+def expr_text(n):
+    """source-like text of the small expressions that occur as strlen() arguments"""
+    k = n.get("kind")
+    inner = n.get("inner", []) or []
+    if k in ("ImplicitCastExpr", "ParenExpr", "CStyleCastExpr"):
+        return expr_text(inner[0]) if inner else "?"
+    if k == "DeclRefExpr":
+        return n.get("referencedDecl", {}).get("name", "?")
+    if k == "MemberExpr":
+        return expr_text(inner[0]) + ("->" if n.get("isArrow") else ".") + n.get("name", "?")
+    return k or "?"
+
+
+def extract_size(path, function="literal_failure_message_for", var="message_size"):
+    """The size computation of the message buffer: the strlen() terms and the constant of the initialiser of `var`, and
+    the strlen() terms added to it later with `+=`."""
+    ast = ast_of(path)
+    base, slack, added = [], [], []
+
+    def strlens(n, out, consts):
+        def v(m, func):
+            if m.get("kind") == "CallExpr":
+                inner = m.get("inner", [])
+                callee = strip_casts(inner[0]) if inner else {}
+                if callee.get("referencedDecl", {}).get("name") == "strlen" and len(inner) >= 2:
+                    out.append(expr_text(inner[1]))
+            if m.get("kind") == "IntegerLiteral":
+                consts.append(int(m.get("value", "0")))
+        walk(n, v)
+
+    def visit(n, func):
+        if func != function:
+            return
+        if n.get("kind") == "VarDecl" and n.get("name") == var:
+            strlens(n, base, slack)
+        if n.get("kind") == "CompoundAssignOperator" and n.get("opcode") == "+=":
+            lhs = strip_casts(n["inner"][0])
+            if lhs.get("referencedDecl", {}).get("name") == var:
+                strlens(n["inner"][1], added, [])
+    walk(ast, visit)
+    return base, slack, added
+
+
 def lean_str(s):
     out = '"'
     for ch in s:
@@ -129,6 +172,30 @@ def generate():
     legacy = open(os.path.join(REPO, "include", "cgreen", "legacy.h")).read()
     legacy_fmts = re.findall(r'#define (assert_(?:true|false))\(result\) \\\n\s*\(\*(?:cgreen::)?get_test_reporter\(\)->assert_true\)\((?:cgreen::)?get_test_reporter\(\), FILENAME, __LINE__, [^,]+, (.*)\)', legacy)
     return sites, fields, arrays, legacy_fmts
+
+
+def render_size(arrays):
+    """Lean text for the size computation of literal_failure_message_for() and its obligation."""
+    base, slack, added = extract_size(os.path.join(REPO, "src", "message_formatting.c"))
+    arr = {a["name"]: a["lit"] for a in arrays}
+    L = ["/-- `literal_failure_message_for()`: the strlen() terms of the buffer size, its constant, and the terms added for string constraints. -/",
+         "def sizeTerms : List String := [" + ", ".join(lean_str(t) for t in base) + "]",
+         "def sizeSlack : Nat := " + str(sum(slack)),
+         "def sizeStringTerms : List String := [" + ", ".join(lean_str(t) for t in added) + "]",
+         "/-- Lengths of the fixed templates that are among the terms. -/",
+         "def fixedTemplateLens : List (String × Nat) := [" + ", ".join(f"({lean_str(t)}, {len(arr[t])})" for t in base if t in arr) + "]",
+         "",
+         "/-- Obligation 5: the size covers what `C10_buffer_suffices` (Props/C10.lean) needs: the three texts and both value",
+         "templates of the constraint are among the terms; the fixed templates among them are together at least as long as",
+         "the fixed text of a message; both strings of a string constraint are added; the constant leaves room for two",
+         "20-character integers, the blank, the line feed and the terminator. -/",
+         'theorem message_size_covers :',
+         '    ["constraint->actual_value_message", "constraint->expected_value_message", "constraint->expected_value_name", "constraint->name", "actual_string"].all (sizeTerms.contains ·) = true',
+         '    ∧ ["constraint->expected_value.value.string_value", "actual_value"].all (sizeStringTerms.contains ·) = true',
+         "    ∧ tExpected.length + tTo.length + tClose.length + tOpen.length + tClose.length + tNl.length ≤ (fixedTemplateLens.map (·.2)).sum",
+         "    ∧ 2 * 20 + 2 ≤ sizeSlack := by decide +kernel",
+         ""]
+    return L
 
 
 def render(sites, fields, arrays, legacy_fmts):
@@ -168,7 +235,11 @@ def render(sites, fields, arrays, legacy_fmts):
         "format (never spliced into the format). -/",
         "theorem legacy_macros_use_percent_s : legacyMacros.length = 4 ∧ legacyMacros.all (fun m => " + lean_chars('"[%s] should be ') + ".isPrefixOf m.2 && " + lean_chars("STRINGIFY_TOKEN(result)") + ".isSuffixOf m.2) = true := by decide +kernel",
         "",
+    ]
+    L += render_size(arrays)
+    L += [
         "end Cgreen.Gen",
+        "#print axioms Cgreen.Gen.message_size_covers",
         "#print axioms Cgreen.Gen.literal_sites_well_typed",
         "#print axioms Cgreen.Gen.variable_sites_are_built_messages",
         "#print axioms Cgreen.Gen.value_templates_full_width",
